@@ -206,6 +206,16 @@ def is_xfail(request):
     return True
 
 
+@pytest.hookimpl(tryfirst=True)
+def pytest_collection_modifyitems(session, config, items):
+    # every test file which takes part in the session keeps the externals it
+    # refers to, also if none of its snapshot() calls is evaluated (skipped
+    # or deselected tests)
+    for item in items:
+        if isinstance(item, pytest.Function):
+            state().files_with_snapshots.add(str(item.path))
+
+
 @pytest.fixture(autouse=True)
 def snapshot_check(request):
     state().missing_values = 0
